@@ -200,6 +200,90 @@ func vpH_C31_add_sub_zero_threshold() {
 	vpReach("end")
 }
 
+// The same with the receiver holding the wider zero bucket (the operand's buckets inside it go to the zero count).
+func vpH_C31_add_sub_zero_threshold_receiver_wider() {
+	aSp, aIdx := vpXLayoutZ("a")
+	bSp, bIdx := vpXLayoutZ("b")
+	av := make([]float64, len(aIdx))
+	bv := make([]float64, len(bIdx))
+	for i := range av {
+		av[i] = float64(16 + i)
+	}
+	for i := range bv {
+		bv[i] = float64(1 + i)
+	}
+	one := []Span{{Offset: 0, Length: 1}}
+	a := &FloatHistogram{Schema: 0, ZeroThreshold: 0.001, ZeroCount: 4, Count: 100, Sum: 8, PositiveSpans: aSp, PositiveBuckets: av, NegativeSpans: one, NegativeBuckets: []float64{7}}
+	// the operand has the wider zero bucket: threshold 1 (= upper bound of bucket index 0) or 2 (bucket index 1);
+	// its own buckets lie above its threshold, so its layout is shifted by that many indexes
+	shift := vpShape("operandThresholdIndex", 1, 2)
+	bSchema := int32(0)
+	if len(bSp) > 0 {
+		bSp[0].Offset += int32(shift)
+	}
+	for j := range bIdx {
+		bIdx[j] += shift
+	}
+	bNeg := []Span{{Offset: int32(shift), Length: 1}}
+	b := &FloatHistogram{Schema: 0, ZeroThreshold: float64(shift), ZeroCount: 1, Count: 10, Sum: 2, PositiveSpans: bSp, PositiveBuckets: bv, NegativeSpans: bNeg, NegativeBuckets: []float64{2}}
+	aCopy := a.Copy()
+	op := vpShape("op", 0, 2) // 0 Add, 1 Sub, 2 KahanAdd
+	var r *FloatHistogram
+	var err error
+	sign := 1.0
+	switch op {
+	case 0:
+		r, _, _, err = b.Copy().Add(a)
+	case 1:
+		r, _, _, err = b.Copy().Sub(a)
+		sign = -1
+	case 2:
+		r = b.Copy()
+		_, _, _, err = r.KahanAdd(a, nil) // the receiver is updated in place; the compensation terms are all zero for exact sums
+	}
+	vpAssert(err == nil, "same schema and threshold: no error")
+	if err != nil {
+		return
+	}
+	vpAssert(a.Equals(aCopy), "the operand is unchanged")
+	// the receiver's buckets inside the wider zero bucket (index < shift, both sides) move into the zero count
+	moved := 7.0 // its negative bucket at index 0
+	for j, k := range aIdx {
+		if k < shift {
+			moved += av[j]
+		}
+	}
+	vpAssert(r.ZeroThreshold == float64(shift), "the result has the wider zero threshold")
+	vpAssert(r.Count == 10+sign*100 && r.ZeroCount == 1+sign*(4+moved) && r.Sum == 2+sign*8, "count and sum add up; the operand's buckets inside the receiver's wider zero bucket go to the zero count")
+	for q := 0; q <= 9; q++ {
+		y, _ := vpXValAt(aSp, av, q) // operand
+		if q < shift {
+			y = 0
+		}
+		x := 0.0 // receiver
+		for j, k := range bIdx {
+			if k == q {
+				x += bv[j]
+			}
+		}
+		_ = bSchema
+		got, ok := vpXValAt(r.PositiveSpans, r.PositiveBuckets, q)
+		vpAssert(ok, "result spans match its buckets")
+		vpObserve("got", got)
+		vpAssert(got == x+sign*y, "every bucket index holds the sum (difference) of the operands' counts")
+	}
+	nb := 0
+	for _, s := range r.PositiveSpans {
+		nb += int(s.Length)
+	}
+	vpAssert(nb == len(r.PositiveBuckets), "result spans match its buckets")
+	ng0, _ := vpXValAt(r.NegativeSpans, r.NegativeBuckets, 0)
+	ngs, _ := vpXValAt(r.NegativeSpans, r.NegativeBuckets, shift)
+	vpAssert(ng0 == 0 && ngs == 2, "negative side: the operand's bucket inside the zero bucket is counted once, in the zero count")
+	vpReach("end")
+}
+
+
 // Resolution reduction on float histograms (the absolute-count path of reduceResolution): each target
 // bucket holds the sum of the source buckets it covers (small integer counts, exact sums).
 func vpH_C31_reduce_resolution_float() {
